@@ -76,7 +76,7 @@ class proxy_info:
         else:
             self.proxy_port = 0
             self.auth = None
-            self.no_proxy = None
+            self.no_proxy = options.get("http_no_proxy", None)
             self.proxy_protocol = "http"
 
 
